@@ -6020,6 +6020,8 @@ class Path(Shape, MutableSequence):
     def __add__(self, other):
         if isinstance(other, (str, Path, Subpath, Shape, PathSegment)):
             n = copy(self)
+            if isinstance(other, PathSegment):
+                other = copy(other)  # + does not adopt (and re-link) its operand
             n += other
             return n
         return NotImplemented
@@ -6031,7 +6033,7 @@ class Path(Shape, MutableSequence):
             return path
         elif isinstance(other, PathSegment):
             path = copy(self)
-            path.insert(0, other)
+            path.insert(0, copy(other))
             return path
         else:
             return NotImplemented
@@ -6517,6 +6519,8 @@ class Path(Shape, MutableSequence):
             p += subpath
         self._segments = p._segments
         self._segments[0].start = prepoint
+        self._length = None  # the cached lengths belong to the old order
+        self._lengths = None
         return self
 
     def subpath(self, index):
@@ -7147,6 +7151,7 @@ class _RoundShape(Shape):
         rx = self.implicit_rx
         ry = self.implicit_ry
         if self.is_degenerate():
+            self.apply = original
             return ()
         center = self.implicit_center
         path.move((self.point_at_t(0)))
